@@ -59,8 +59,8 @@ def run(chk):
                     s = T(slabels, "float", "scales", (), ("w",))
                     if slabels == ():
                         continue  # a per-tensor scale only arises for out == 1; flatten() of a 0-d tensor has one element
-                a.strides = {"stride0", "lastdim"}  # the caller's activations: expanded, transposed, sliced - any strides
-                w.strides = {"stride0", "lastdim"}  # and so are the weights of the functional API (quantize_weight keeps the layout of its argument)
+                a.strides = {"stride0", "lastdim", "unaligned"}  # the caller's activations: expanded, transposed, sliced - any strides, any storage offset
+                w.strides = {"stride0", "lastdim", "unaligned"}  # and so are the weights of the functional API (quantize_weight keeps the layout of its argument; a reloaded weight is a view of the file)
                 want = batch(r) + (L("out"),)
                 typed += check_results(chk, m, f, name, Interp(f, dict(zip(positional_params(f), (a, w, s))), helper_nodes).run(), want, f"rank {r + 1} activations, {sdesc} scales")
         chk.floor("C07.R1", typed, 1, f"{name} typed instances")
@@ -81,9 +81,9 @@ def run(chk):
         for r in ranks:
             for sdesc, slabels, _ in weight_scales():
                 a = T(batch(r) + (L("in"),), "code", "activations", {"act"})
-                a.strides = {"stride0", "lastdim"}
+                a.strides = {"stride0", "lastdim", "unaligned"}
                 w = T((L("out"), L("in")), "code", "weights", {"w"})
-                w.strides = {"stride0", "lastdim"}
+                w.strides = {"stride0", "lastdim", "unaligned"}
                 s = T(slabels, "float", "scales", (), ("act", "w"))
                 res = Interp(li.fn, dict(zip(positional_params(li.fn), (a, w, s))), helper_nodes).run()
                 # routes that dequantize the activation drop its code: the int8pack route is typed with a plain activation above
@@ -134,8 +134,12 @@ def check_results(chk, mi, fn, qual, results, want, what, pairing=True):
         if status == "unknown":
             chk.unknown("C07.R1", site, f"{qual} ({what}; {path}): {val}")
         elif status == "typeerr":
-            rule = "C07.R2" if "not matched by its scales" in val else ("C07.R5" if "(platform table)" in val and "without contiguous()" in val else "C07.R1")
-            chk.bad(rule, site, qual, f"{qual}: {_gen(val)}", f"{qual} ({what}; path: {path}): {val}", f"{what}: shapes that only line up when the symbolic sizes coincide (e.g. square matrices) give silently wrong values, others raise")
+            rule = "C07.R2" if "not matched by its scales" in val else ("C07.R5" if "(platform table" in val and ("without contiguous()" in val or "16-byte aligned" in val) else "C07.R1")
+            fails = f"{what}: shapes that only line up when the symbolic sizes coincide (e.g. square matrices) give silently wrong values, others raise"
+            if "16-byte aligned" in val:
+                fails = ("a frozen bfloat16 model with qint8 weights saved with safe_save and reloaded with safe_load (the tensors are views of the mapped file at unaligned offsets): "
+                         "the first forward dies with SIGSEGV; the same model reloaded through torch.save / torch.load returns the saved model's outputs")
+            chk.bad(rule, site, qual, f"{qual}: {_gen(val)}", f"{qual} ({what}; path: {path}): {val}", fails)
         elif status == "raise":
             continue
         else:
@@ -738,7 +742,7 @@ def mm_handlers(chk, r1="C07.R1", r2="C07.R2", r5="C07.R5"):
             for status, val, trace in res:
                 path = ", ".join(f"{'' if v else 'not '}{t[:30]}" for t, v in trace)
                 if status == "typeerr":
-                    rule = r2 if "not matched by its scales" in val else (r5 if "(platform table)" in val and "without contiguous()" in val else r1)
+                    rule = r2 if "not matched by its scales" in val else (r5 if "(platform table" in val and ("without contiguous()" in val or "16-byte aligned" in val) else r1)
                     chk.bad(rule, site, h.name, f"{h.name}: input {di}, other {do}: {_gen(val)}"[:140], f"{what} (path: {path[:100]}): {val}",
                             f"{'torch.bmm' if is_b else 'torch.mm'} of a {di} qint8 operand with a {do} qint8 operand that takes the raw-code route: the scale along the contracted axis is applied to the output (silently wrong when sizes coincide, RuntimeError otherwise)")
                 elif status == "unknown":
